@@ -391,3 +391,57 @@ theorem callback_nodes_dead_after_insert {S : List Nat} {p : Policy} (h : Reach 
   · exact d
 
 end OtterVerif.Impl.Policy
+
+namespace OtterVerif.Impl.Policy
+
+theorem de_updateTail {T : List Nat} {p : Policy} (id : Nat) (w : BitVec 64) (hi : LInv T p) : DE p (updateTail p id w) := by
+  unfold Policy.updateTail
+  simp only
+  split
+  · split
+    · refine DE.trans ?_ (de_evictNode _ id (hi.same _ rfl (fun _ => rfl)).c)
+      exact DE.of_same (fun _ => rfl) rfl
+    · have h1 : LInv T { p with windowWeightedSize := p.windowWeightedSize + w } := hi.same _ rfl (fun _ => rfl)
+      refine DE.trans (p' := { p with windowWeightedSize := p.windowWeightedSize + w }) (DE.of_same (fun _ => rfl) rfl) ?_
+      refine DE.trans ?_ (DE.of_same (fun _ => rfl) rfl)
+      split
+      · exact DE.of_same (mv_access _ id h1.c).2 (evicted_access _ _)
+      · split
+        · rename_i h
+          exact DE.of_same (mv_moveToFront _ 0 id h1.c ((linked_iff_all _ id).mp ((dqContains_iff _ 0 id).mp h))).2
+            (evicted_moveToFront _ _ _)
+        · exact DE.refl _
+  · split
+    · split
+      · exact (DE.of_same (mv_access _ id hi.c).2 (evicted_access _ _)).trans (DE.of_same (fun _ => rfl) rfl)
+      · refine DE.trans ?_ (de_evictNode _ id (hi.same _ rfl (fun _ => rfl)).c)
+        exact DE.of_same (fun _ => rfl) rfl
+    · have h1 : LInv T { p with mainProtectedWeightedSize := p.mainProtectedWeightedSize + w } := hi.same _ rfl (fun _ => rfl)
+      refine DE.trans (p' := { p with mainProtectedWeightedSize := p.mainProtectedWeightedSize + w }) (DE.of_same (fun _ => rfl) rfl) ?_
+      split
+      · exact (DE.of_same (mv_access _ id h1.c).2 (evicted_access _ _)).trans (DE.of_same (fun _ => rfl) rfl)
+      · refine DE.trans ?_ (de_evictNode _ id (h1.same _ rfl (fun _ => rfl)).c)
+        exact DE.of_same (fun _ => rfl) rfl
+
+theorem de_updateNode (p : Policy) (id old : Nat) (hne : id ≠ old) : DE p (updateNode p id old) :=
+  ⟨dn_updateNode p id old hne, fun y hy => Or.inl (by rw [evicted_updateNode] at hy; exact hy)⟩
+
+theorem de_update {S : List Nat} {p : Policy} {id : Nat} (old : Nat) (hi : LInv S p) (hs : id ∉ S) : DE p (update p id old) := by
+  rw [update_eq]
+  split
+  · exact de_makeDead p old hi.c
+  · rename_i h
+    have hnd : (p.node id).st ≠ .dead := by simpa using h
+    have h1 : LInv S (makeDead p old) := hi.kill (kill_makeDead p old hi.c)
+    split
+    · split
+      · exact (de_makeDead p old hi.c).trans (de_add id h1)
+      · exact de_makeDead p old hi.c
+    · rename_i h2
+      have ho : old ∈ all p := by
+        have : dqContains p (p.node old).qt old = true := by simpa using h2
+        exact (linked_iff_all p old).mp ((dqContains_iff p _ old).mp this)
+      have hne : id ≠ old := fun e => hs (e ▸ (hi.a old ho).1)
+      exact (de_updateNode p id old hne).trans (de_updateTail id _ (hi.updateNode hs ho hnd))
+
+end OtterVerif.Impl.Policy
